@@ -262,6 +262,30 @@ def run(cx):
         cx.ob('EXPR', 'Arc2::three_points:start', ok, 'the arc lies on the circle through the three points and starts at the angle of the first point', where=b.file)
     three_points_sweep(cx)
     line_circle_rules(cx)
+    # inside the crate nothing assigns the centre / radius / angles of an existing circle or arc: the cached box cannot go stale through library code
+    E.immutable_after_construction(cx, C, ('center', 'ball', 'aabb'))
+    E.immutable_after_construction(cx, A, ('circle', 'angle0', 'angle', 'aabb'))
+    nw = {}
+    for adt, flds in ((C, ('center', 'ball', 'aabb')), (A, ('circle', 'angle0', 'angle', 'aabb'))):
+        nw.update(E.nested_field_writers(cx, adt, flds))
+    cx.ob('ENC', 'Circle2/Arc2:no-nested-writes', not nw, 'no function updates the centre / radius / angles of a circle or arc held inside another value in place (it is rebuilt through its constructor, which recomputes the box)',
+          found='; '.join(f'{k} writes {sorted(v)}' for k, v in sorted(nw.items())) or None)
+    # circle x segment: the line parameters of intersection_line_circle, kept exactly when within [0, 1] widened by 1e-10 (end points included)
+    b = cx.fn(f'{C}::intersection', where='Segment2')
+    if b:
+        from vpa import comp as CMP
+        TS = '(call *intersection_line_circle (param other) (param self))'
+        T = f'(index {TS} (itervar (range 0 (len {TS}))))'
+        comps = [c for c in CMP.comprehensions(cx, b, cx.retval(b)) if c.get('elem') is not None]
+        ok = len(comps) == 1 and comps[0]['src'] is not None and match(TS, comps[0]['src']) is not None and match(f'(call *Segment2::at (param other) {T})', comps[0]['elem']) is not None
+        okc = False
+        if ok:
+            cs = comps[0]['conds']
+            e = match(f'(call RangeInclusive::contains (call RangeInclusive::new $lo $hi) {T})', cs[0][0]) if len(cs) == 1 and cs[0][1] else None
+            okc = e is not None and e['lo'][0] == 'const' and e['hi'][0] == 'const' and -1e-6 <= e['lo'][1] <= 0.0 and 1.0 <= e['hi'][1] <= 1.0 + 1e-6
+        cx.ob('GUARD', 'Circle2::intersection(Segment2)', ok and okc,
+              'a line-circle parameter t becomes the point segment.at(t) exactly when t lies in the CLOSED range [0, 1] widened by a small constant: crossings at the segment end points are kept',
+              where=b.file, found='; '.join(f"{show(c['elem'])[:120]} if {[show(a)[:160] for a, p in c['conds']]}" for c in comps))
 
     # ---------------------------------------------------------------- curve / circle intersections: every edge is tested
     b = cx.fn('geom2::curve2::Curve2::intersection', where='Circle2')
